@@ -16,6 +16,7 @@ import json
 import warnings
 
 import numpy as np
+from immutabledict import immutabledict
 
 from lib import gen
 from lib import straxlib as sl
@@ -33,7 +34,9 @@ ASSUMPTIONS = [
     "the ten-pass limit of the re-trim loop (D9, reported under C01) is an expected RuntimeError here: an error is raised, nothing is dropped",
 ]
 
-_MSG: dict[str, str] = {}     # side channel for the oracle only: message of the exception of the last real run
+_MSG: dict[int, tuple] = {}   # side channel for the oracle only, id(case) -> (case, exception message / input-range finding)
+_CTX = None                   # the engine context of the current run (the oracle asks the driver about ten-pass errors)
+_TENPASS: dict[str, bool] = {}
 _CLASSES: dict = {}
 
 
@@ -60,13 +63,44 @@ def _compute(self, start, end, **kwargs):
     return np.zeros(0, self.dtype)
 
 
-def _plugin_class(dep_names, strict):
-    key = (tuple(dep_names), bool(strict))
+def _compute_multi(self, start, end, **kwargs):
+    self.rec.append((start, end, kwargs))
+    return {o: np.zeros(0, _OUT_DTYPE) for o in self.provides}
+
+
+def _do_compute(self, chunk_i=None, **kwargs):
+    """record the [start, end) of every (merged) input chunk, then the real do_compute"""
+    self.ranges.append(sorted((k, int(v.start), int(v.end)) for k, v in kwargs.items()))
+    return strax.Plugin.do_compute(self, chunk_i=chunk_i, **kwargs)
+
+
+def policy_of(case):
+    """save_when values of the provided data types (NEVER 0, EXPLICIT 1, TARGET 2, ALWAYS 3); one entry = ordinary plugin,
+    several = multi-output plugin with a dict-valued save_when"""
+    sw = case.get("save_when")
+    return list(sw) if sw else [3 if case["strict"] else 0]
+
+
+def saved_by_default(case):
+    """the property's wording: results saved by default = TARGET or ALWAYS; for a multi-output plugin, any of its outputs"""
+    return any(v >= 2 for v in policy_of(case))
+
+
+def _plugin_class(dep_names, save_when):
+    key = (tuple(dep_names), tuple(save_when))
     cls = _CLASSES.get(key)
     if cls is None:
-        cls = type("RecordingPlugin", (strax.Plugin,), dict(
-            provides=("c08_out",), depends_on=tuple(dep_names), dtype=_OUT_DTYPE, data_kind="c08_out",
-            save_when=strax.SaveWhen.ALWAYS if strict else strax.SaveWhen.NEVER, compute=_compute))
+        if len(save_when) == 1:
+            cls = type("RecordingPlugin", (strax.Plugin,), dict(
+                provides=("c08_out",), depends_on=tuple(dep_names), dtype=_OUT_DTYPE, data_kind="c08_out",
+                save_when=strax.SaveWhen(save_when[0]), compute=_compute, do_compute=_do_compute))
+        else:
+            outs = tuple(f"c08_o{i}" for i in range(len(save_when)))
+            cls = type("RecordingMultiPlugin", (strax.Plugin,), dict(
+                provides=outs, depends_on=tuple(dep_names), dtype={o: _OUT_DTYPE for o in outs},
+                data_kind={o: o for o in outs},
+                save_when=immutabledict({o: strax.SaveWhen(v) for o, v in zip(outs, save_when)}),
+                compute=_compute_multi, do_compute=_do_compute))
         _CLASSES[key] = cls
     return cls
 
@@ -119,12 +153,14 @@ def run_real(case):
         with warnings.catch_warnings():
             warnings.simplefilter("ignore")
             chunks = {d["name"]: [_mk_real_chunk(d["name"], d["kind"], c) for c in d["chunks"]] for d in deps}
-            p = _plugin_class(names, case["strict"])()
+            p = _plugin_class(names, policy_of(case))()
             p.rec = []
+            p.ranges = []
             p.run_id = "0"
             p.deps = {d["name"]: _FakeDep(d["kind"]) for d in deps}
             p.fix_dtype()
-            iters = {n: _GuardedIter(chunks[n]) for n in names}
+            order = case.get("iters_order") or list(range(len(names)))      # `iters` is a dict: any key order is legal
+            iters = {names[i]: _GuardedIter(chunks[names[i]]) for i in order}
             for _ in p.iter(iters):
                 pass
     except Exception as e:  # noqa: BLE001
@@ -137,7 +173,9 @@ def run_real(case):
             n = d["name"]
             per_dep.append([(int(t), int(e), int(k)) for t, e, k in zip(arr[f"t_{n}"], arr[f"e_{n}"], arr[f"id_{n}"])])
         calls.append((int(start), int(end), per_dep))
-    return ("ok", calls)
+    # observed directly: the [start, end) of every merged input chunk handed to do_compute, against what compute was told
+    bad = [(i, rng) for i, ((s, e, _), rng) in enumerate(zip(calls, p.ranges)) if any((a, b) != (s, e) for _, a, b in rng)]
+    return ("ok", calls, "" if not bad and len(p.ranges) == len(calls) else f"input-ranges differ from the call range: {bad[:2]} ({len(p.ranges)} do_compute / {len(calls)} compute)")
 
 
 def show_calls(calls):
@@ -150,7 +188,7 @@ def _real_line(case):
     r = run_real(case)
     if r[0] == "err":
         return "err " + r[1], r[2]
-    return "ok " + show_calls(r[1]), ""
+    return "ok " + show_calls(r[1]), r[2]
 
 
 _PRE: dict[int, tuple] = {}     # id(case) -> (line, message), filled by `prefetch` for the current batch
@@ -191,8 +229,27 @@ def impl_iter(case):
     pre = _PRE.get(id(case))
     line, msg = pre[1] if pre is not None and pre[0] is case else _real_line(case)
     if msg:
-        _MSG[_case_key(case)] = msg
+        _MSG[id(case)] = (case, msg)
     return line
+
+
+def _msg(case):
+    m = _MSG.get(id(case))
+    return m[1] if m is not None and m[0] is case else ""
+
+
+def ten_pass_class(case):
+    """what the MODEL says about this very input: 'limit' = ten passes give RuntimeError and a pass budget that always
+    suffices (theorem retrim_terminates) runs to the end, i.e. the literal ten is the one and only reason of the failure;
+    'limit-then-error' = ten passes give RuntimeError and the big budget gets further but the run still ends in an error;
+    'no' = the model does not fail with RuntimeError at ten passes (or no model)"""
+    key = _case_key(case)
+    if key not in _TENPASS:
+        ans = None
+        if _CTX is not None and _CTX.model_available:
+            ans = _CTX.driver.run([op_iter(case).replace("c08.iter", "c08.tenpass", 1)])[0]
+        _TENPASS[key] = {"ok 11": "limit", "ok 10": "limit-then-error"}.get(ans, "no")
+    return _TENPASS[key]
 
 
 def dep_tok(d):
@@ -200,7 +257,7 @@ def dep_tok(d):
 
 
 def op_iter(case):
-    return f"c08.iter {int(case['strict'])} " + " ".join(dep_tok(d) for d in case["deps"])
+    return "c08.iter s:" + ",".join(str(v) for v in policy_of(case)) + " " + " ".join(dep_tok(d) for d in case["deps"])
 
 
 def parse_calls(out):
@@ -258,17 +315,24 @@ def oracle_iter(case, out):
     if not f["valid"]:
         return None            # outside the quantifier (malformed stream): model / implementation agreement only
     deps = case["deps"]
-    strict = bool(case["strict"])
+    strict = saved_by_default(case)
     all_rows = [[tuple(r) for _, _, rows in d["chunks"] for r in rows] for d in deps]
     if out.startswith("err"):
         kind = out[4:]
-        msg = _MSG.get(_case_key(case), "")
+        msg = _msg(case)
         if kind == "ValueError" and not f["kind_aligned"] and "different number of items" in msg:
             return None        # same-kind dependencies that do not describe the same rows: rejected loudly by Chunk.merge
         if kind != "RuntimeError":
             return f"law-abiding inputs starting together raised {kind}"
         if "ten passes" in msg:
-            return None        # D9: an error is raised, nothing is dropped (C01 reports the lost totality)
+            # D9 (reported under C01): an error IS raised, so nothing is silently dropped.  Accepted only when the model
+            # confirms that the literal ten is the one and only reason this input fails.
+            cls = ten_pass_class(case)
+            if cls == "limit":
+                return None
+            if cls == "limit-then-error" and (len(set(f["ends"])) != 1 or f["trailing_zero"]):
+                return None    # even with enough passes this input ends in a sanctioned error (different ends / unfetched chunk)
+            return "RuntimeError 'ten passes' on an input that the model does not classify as the ten-pass limit"
         same_end = len(set(f["ends"])) == 1
         if "ended prematurely" in msg:
             return None if not same_end else "a dependency 'ended prematurely' although all dependencies end at the same time"
@@ -286,6 +350,9 @@ def oracle_iter(case, out):
     calls = parse_calls(out)
     if not calls:
         return "no compute call at all"
+    aux = _msg(case)
+    if aux:
+        return aux             # some merged input chunk did not cover exactly the [start, end) handed to compute
     # adjacency
     if calls[0][0] != f["t0"]:
         return f"first call starts at {calls[0][0]}, the inputs start at {f['t0']}"
@@ -325,7 +392,7 @@ def oracle_iter(case, out):
 def err_site(case, out):
     if not out.startswith("err"):
         return "ok"
-    msg = _MSG.get(_case_key(case), "")
+    msg = _msg(case)
     for pat, lab in (("ten passes", "ten-pass"), ("ended prematurely", "premature-end"), ("without fetching last", "unfetched"),
                      ("leftover", "leftover"), ("empty input buffer", "empty-iterator"), ("different number of items", "merge-length"),
                      ("overlapping or out-of-order", "concat-order"), ("inconsistent time ranges", "range-check")):
@@ -336,7 +403,7 @@ def err_site(case, out):
 
 def branch_iter(case, out):
     f = case_facts(case)
-    pol = "strict" if case["strict"] else "tolerant"
+    pol = ("strict" if saved_by_default(case) else "tolerant") + ":sw=" + "+".join("NETA"[v] for v in policy_of(case))
     valid = "valid" if f["valid"] else "malformed"
     site = err_site(case, out)
     if site == "ok":
@@ -370,8 +437,14 @@ def _chunkings(max_rows, grid, zero=True):
     return out
 
 
+def _sw(strict, v):
+    """the four save_when values: strict = ALWAYS / TARGET, tolerant = NEVER / EXPLICIT (alternating deterministically)"""
+    return [(3, 2)[v % 2]] if strict else [(0, 1)[v % 2]]
+
+
 def _case2(ca, cb, ka, kb, strict):
-    return dict(deps=[dict(name="a", kind=ka, chunks=ca), dict(name="b", kind=kb, chunks=cb)], strict=strict)
+    return dict(deps=[dict(name="a", kind=ka, chunks=ca), dict(name="b", kind=kb, chunks=cb)], strict=strict,
+                save_when=_sw(strict, len(ca) + len(cb)))
 
 
 def exhaustive_two_kinds(max_rows, grid, strict, zero=True):
@@ -396,7 +469,8 @@ def exhaustive_unequal_ends(max_rows, grid):
                 for cb in cbs:
                     for strict in (0, 1):
                         yield _case2(ca, cb, "ka", "kb", strict)
-                        yield dict(deps=[dict(name="b", kind="kb", chunks=cb), dict(name="a", kind="ka", chunks=ca)], strict=strict)
+                        yield dict(deps=[dict(name="b", kind="kb", chunks=cb), dict(name="a", kind="ka", chunks=ca)], strict=strict,
+                                   save_when=_sw(strict, len(ca) + len(cb) + 1))
 
 
 def exhaustive_one_kind(max_rows, grid):
@@ -445,7 +519,14 @@ def random_case(rng, big=False):
             if ok:
                 cs = gen.chunk_rows(rows, shared_cuts)
         deps.append((f"d{i}", k, cs))
-    return mk_case(deps, rng.random() < 0.65)
+    # save policy: the four enum values, and dict-valued save_when of a multi-output plugin (the code takes the max)
+    sw = rng.choice([[3], [3], [2], [2], [1], [0], [0, 3], [3, 0], [1, 2], [2, 1], [0, 1], [1, 1], [2, 2], [1, 0, 3], [0, 0, 1]])
+    c = mk_case(deps, any(v >= 2 for v in sw), save_when=sw)
+    if n_deps > 1 and rng.random() < 0.3:
+        order = list(range(n_deps))
+        rng.shuffle(order)
+        c["iters_order"] = order      # `iters` is a dict: Plugin.iter must not depend on its key order
+    return c
 
 
 def brick_case(n_rows, cut_a, cut_b, strict, shift=0, kinds=("ka", "kb")):
@@ -492,6 +573,7 @@ def malformed_case(rng):
     """outside the quantifier: inputs that do not start together, gaps / overlaps between chunks, empty iterators,
     same-kind dependencies with different rows, rows outside their chunk"""
     c = random_case(rng)
+    c.pop("iters_order", None)        # error precedence between dependencies is only modelled in depends_on order
     deps = c["deps"]
     how = rng.choice(["t0", "gap", "overlap", "empty-iter", "kind-mismatch", "row-outside", "unsorted"])
     d = rng.choice(deps)
@@ -544,18 +626,23 @@ def correspond_batched(ctx, name, cases, rule, exhaustive=False, batch=40000):
 
 
 def run(ctx):
+    global _CTX
+    _CTX = ctx
     rng = ctx.rng
 
     # 1. exhaustive small scope
     rule2 = ("two dependencies of two kinds: every pair of time-sorted lists of <= {n} positive-duration rows on grid 0..{g} x every law-abiding "
              "chunking of each (all admissible cut sets{z}), {pol} policy; non-trivial = >= 2 rows overall and some dependency in > 1 chunk")
-    # (rows, grid), strict?, with the zero-duration-chunk variants?
-    for (n, g), strict, zero in ctx.pick([((3, 3), 1, False), ((2, 3), 1, True), ((2, 3), 0, True)],
-                                         [((4, 3), 1, False), ((3, 3), 1, True), ((2, 4), 1, True), ((3, 3), 0, True)]):
+    # (rows, grid), strict?, with the zero-duration-chunk variants?, stride (1 = exhaustive)
+    for (n, g), strict, zero, stride in ctx.pick(
+            [((3, 3), 1, False, 3), ((2, 3), 1, True, 1), ((2, 3), 0, True, 1)],
+            [((4, 3), 1, False, 1), ((3, 3), 1, True, 1), ((2, 4), 1, True, 1), ((3, 3), 0, True, 1)]):
         pol = "strict" if strict else "tolerant"
-        correspond_batched(ctx, f"iter/exhaustive-{n}rows-grid{g}-{pol}{'-zerodur' if zero else ''}", exhaustive_two_kinds(n, g, strict, zero),
-                           exhaustive=True,
-                           rule=rule2.format(n=n, g=g, pol=pol, z=" + a zero-duration chunk at the start / at a cut / at the end" if zero else ""))
+        name = f"iter/exhaustive-{n}rows-grid{g}-{pol}{'-zerodur' if zero else ''}" if stride == 1 else \
+            f"iter/every{stride}-{n}rows-grid{g}-{pol}{'-zerodur' if zero else ''}"
+        correspond_batched(ctx, name, itertools.islice(exhaustive_two_kinds(n, g, strict, zero), 0, None, stride), exhaustive=(stride == 1),
+                           rule=("" if stride == 1 else f"every {stride}th case of: ") +
+                           rule2.format(n=n, g=g, pol=pol, z=" + a zero-duration chunk at the start / at a cut / at the end" if zero else ""))
     n, g = ctx.pick((2, 3), (3, 3))
     correspond_batched(ctx, f"iter/exhaustive-unequal-ends-{n}rows-grid{g}", exhaustive_unequal_ends(n, g), exhaustive=True,
                        rule=f"two dependencies of two kinds, one over [0,{g - 1}) and one over [0,{g}) (<= {n} rows each), every pair of row lists and "
@@ -598,6 +685,8 @@ def run(ctx):
 
 
 def search(ctx):
+    global _CTX
+    _CTX = ctx
     rng = ctx.rng
     cases = [random_case(rng, big=rng.random() < 0.5) for _ in range(30000)]
     prefetch(cases)
@@ -607,6 +696,8 @@ def search(ctx):
 def replay(ctx, body):
     if body.get("case") is None:
         return f"obligation {body['component']} has no input to replay (no-failing-input-found); re-run the check"
+    global _CTX
+    _CTX = ctx
     case = body["case"]["case"]
     out = impl_iter(case)
     print("implementation output:", out)
